@@ -4,8 +4,10 @@ package main
 
 import (
 	"fmt"
+	"go/constant"
 	"go/types"
 	"os"
+	"regexp"
 	"sort"
 	"strings"
 
@@ -160,6 +162,8 @@ func rulesC11(w *World, o *Out) {
 		}
 		return false
 	}
+	nFmt := 0
+	defer func() { o.Count("C11.R1 claim hash formats read", nFmt, 3) }()
 	for _, T := range impls {
 		name := T.Obj().Name()
 		ch := w.Func("x/skyway/types", name, "ClaimHash")
@@ -210,6 +214,18 @@ func rulesC11(w *World, o *Out) {
 		}
 		o.Check("C11.R1", name+"|hash input is not normalised", lossy == "", w.Pos(ch.Pos()),
 			"the claim hash passes the field values through "+lossy+", which maps different values to the same bytes (dropped / cleaned elements, case folding, trimming): claims that differ in a free-form field are pooled into one attestation")
+		// ... and keep the fields apart: two verbs of the format that touch let the end of one value run into
+		// the start of the next (amount 10 + "0x5A.." and amount 100 + "x5A.." give the same bytes)
+		for _, s := range FindCalls(ch, false, isCallee("fmt", "", "Sprintf")) {
+			nFmt++
+			c, isConst := s.Args()[0].(*ssa.Const)
+			glued := ""
+			if isConst && c.Value != nil && c.Value.Kind() == constant.String {
+				glued = adjacentVerbs.FindString(strings.ReplaceAll(constant.StringVal(c.Value), "%%", ""))
+			}
+			o.Check("C11.R1", name+"|hashed fields are separated", isConst && glued == "", w.Pos(s.Instr.Pos()),
+				"the format of the hashed text puts two values next to each other without a separator ("+glued+"): claims whose adjacent fields split differently share a hash and are pooled")
+		}
 		R := w.fieldsRead(T, excl)
 		var rk []string
 		for k := range R {
@@ -376,3 +392,5 @@ func claimHashFormatter(c Callee) bool {
 	}
 	return false
 }
+
+var adjacentVerbs = regexp.MustCompile(`%[-+# 0-9.]*[a-zA-Z]%[-+# 0-9.]*[a-zA-Z]`)
